@@ -27,7 +27,7 @@
 From Coq Require Import Permutation Sorting.Sorted.
 From RV Require Import Modifiers.Model Modifiers.Order Modifiers.Post Modifiers.Agg
                        Modifiers.Proofs Modifiers.Readings Modifiers.PromoModel Modifiers.PromoProofs
-                       Modifiers.ExprProofs Modifiers.Fuel.
+                       Modifiers.ExprProofs Modifiers.Fuel Modifiers.SubModel Modifiers.SubProofs.
 
 (* The tie between model and checker: on every well-formed case the rows the
    model computes (aggregation stage, query without slice, query) are accepted
@@ -423,6 +423,27 @@ Theorem C08_hist_avg_float_double_rejected :
   /\ pmodel {| p_avg := true; p_vals := [(2%N, (3, 2)%Z)] |} = PVal 2 (3, 2)%Z.
 Proof. exact avg_float_double_rejected. Qed.
 Print Assumptions C08_hist_avg_float_double_rejected.
+
+(* A sub-select with ORDER BY / LIMIT / OFFSET inside a group is evaluated on its own: the group's
+   solutions are (as a multiset) the join of the neighbouring pattern with exactly ONE slice of the
+   sub-select's ordered solutions - not a slice per outer solution.  (Both solution sequences are
+   inputs; the join itself is the nested loop over compatible pairs.) *)
+Theorem C08_subselect_spec_model : forall c, sspec c (smodel c) = true.
+Proof. exact sspec_model. Qed.
+Print Assumptions C08_subselect_spec_model.
+
+Theorem C08_subselect_reading : forall c f s j,
+  sspec c (SRows f s j) = true ->
+  post_ok (s_sub c) (c_input (s_sub c)) f = true
+  /\ s = eval_slice (c_slice (s_sub c)) f
+  /\ Permutation j (join_rows (s_outer c) s).
+Proof. exact sspec_reading. Qed.
+Print Assumptions C08_subselect_reading.
+
+Theorem C08_join_rows : forall a b r,
+  In r (join_rows a b) <-> exists x y, In x a /\ In y b /\ compatible x y = true /\ r = merge x y.
+Proof. exact join_rows_In. Qed.
+Print Assumptions C08_join_rows.
 
 (* The model's aggregation stage satisfies that checker. *)
 Theorem C08_agg_stage_model : forall c, wf c = true -> agg_ok c (agg_stage c) = true.
